@@ -38,13 +38,14 @@ CellOf(p) == IF p \in BoundProbes THEN {p}
 Cells == { CellOf(p) : p \in Probes }
 RPFamily == { CanonOf(UNION S) : S \in SUBSET Cells }
 
-\* ---- settings: implementation (0 none, "cp", "pp") and free-threading flag (-1 unspecified, 0, 1)
-Settings == { [impl |-> "", ft |-> -1], [impl |-> "cp", ft |-> 0], [impl |-> "cp", ft |-> 1], [impl |-> "pp", ft |-> 0] }
+\* ---- settings: implementation ("" none, "cp" CPython, "pp" PyPy, "pt" Pyston) and free-threading flag (-1 unspecified, 0, 1)
+Settings == { [impl |-> "", ft |-> -1], [impl |-> "cp", ft |-> 0], [impl |-> "cp", ft |-> 1], [impl |-> "pp", ft |-> 0], [impl |-> "pt", ft |-> 0] }
 
 \* ---- tag universe.  python tag [impl, major, minor] (minor -1: absent);
 \*      abi tag [kind, impl, major, minor, flag]: kind none | abi3 | concrete; flag "" | "m" | "t"
 PyTags == { [impl |-> "py", major |-> X, minor |-> -1] : X \in 2..3 } \cup
-          { [impl |-> i, major |-> X, minor |-> Y] : i \in {"py", "cp", "pp"}, X \in 2..3, Y \in Minors }
+          { [impl |-> i, major |-> X, minor |-> Y] : i \in {"py", "cp", "pp"}, X \in 2..3, Y \in Minors } \cup
+          { [impl |-> "pt", major |-> 3, minor |-> Y] : Y \in Minors \cap {8, 9} }        \* Pyston
 NoAbi == [kind |-> "none", impl |-> "", major |-> 0, minor |-> 0, flag |-> ""]
 Abi3  == [kind |-> "abi3", impl |-> "", major |-> 0, minor |-> 0, flag |-> ""]
 Concrete(i, X, Y, f) == [kind |-> "concrete", impl |-> i, major |-> X, minor |-> Y, flag |-> f]
@@ -55,7 +56,7 @@ AbisFor(t) ==
         { Concrete(own, t.major, t.minor, f) : f \in (IF own = "cp" THEN {"", "m", "t"} ELSE {""}) } \cup   \* own ABI (for py tags: a cp ABI)
         { Concrete(own, t.major, t.minor + 1, "") } \cup                          \* another minor
         { Concrete(IF own = "cp" THEN "pp" ELSE "cp", t.major, t.minor, "") } \cup \* another implementation
-        (IF t.minor \in 1..2 THEN { Concrete(own, t.major, 10 * t.minor, "") } ELSE {}))  \* cp31 vs cp310: digit-prefix
+        (IF t.minor \in 1..2 THEN { Concrete(own, t.major, 10 * t.minor, f) : f \in (IF own = "cp" THEN {"", "t"} ELSE {""}) } ELSE {}))  \* cp31 vs cp310 / cp310t: digit-prefix
 TagPairs == SetToSeq({ <<t, a>> : t \in PyTags, a \in UNION { AbisFor(u) : u \in PyTags } } \cap
                      { pr \in PyTags \X UNION { AbisFor(u) : u \in PyTags } : pr[2] \in AbisFor(pr[1]) })
 
@@ -84,7 +85,7 @@ DeclScore(t, a) == <<t.major, IF t.minor = -1 THEN 0 ELSE t.minor,
 
 \* --------------------------------------------------------------- ALGORITHM
 \* strings as integer sequences: implementation code, one major digit, minor digits, flag code
-ImplCode(i) == CASE i = "py" -> 1 [] i = "cp" -> 2 [] i = "pp" -> 3 [] OTHER -> 9
+ImplCode(i) == CASE i = "py" -> 1 [] i = "cp" -> 2 [] i = "pp" -> 3 [] i = "pt" -> 4 [] OTHER -> 9
 FlagCode(f) == CASE f = "m" -> 101 [] f = "t" -> 102 [] OTHER -> 0
 Digits(n) == IF n < 10 THEN <<n>> ELSE <<n \div 10, n % 10>>
 PyStr(t)  == <<ImplCode(t.impl), t.major>> \o (IF t.minor = -1 THEN <<>> ELSE Digits(t.minor))
